@@ -23,7 +23,7 @@ FRAMED = ["Package", "PackageBuilder", "VarPackage", "BufferData", "BufferTerm",
 # white space that trim() removes, zero-width characters, signs and radix prefixes that integer parsers accept
 HOSTILE = ["\u0131", "\u017f", "\u212a", "\u00df", "\ufb00", "\ufb01", "\ufb02", "\ufb03", "\ufb05", "\ufb06", "\u0130", "\uff21",
            "\uff10", "\u0660", "\u00b2", "\u2160", "\u0391", "\u0410", "\u00c0", "\u01c5", "\u1e9e", "\u0149", " ", "\t", "\n", "\r", "\u00a0", "\u3000", "\u200b",
-           "\ufeff", "+", "-", "_", "\0", "x", "a", "z", ".", "\\", "^", "/", "0x", "1_"]
+           "\ufeff", "\0", "x", "a", "z", "0x", "1_"] + [chr(c) for c in range(0x20, 0x7f) if not chr(c).isalnum()]   # + all ASCII punctuation
 
 
 def hostile_variants(base, positions=None):
@@ -131,6 +131,8 @@ class G:
     # ---- resource descriptors
     def gas(self):
         r = self.r
+        if r.chance(1, 4):      # the PCI-configuration-space constructor
+            return {"width": r.scalar(1), "access": r.choice(GAS_ACCESS), "device": r.scalar(1), "function": r.scalar(1), "register": r.scalar(2)}
         return {"space": r.choice(GAS_SPACES), "width": r.scalar(1), "offset": r.scalar(1), "access": r.choice(GAS_ACCESS),
                 "addr": r.scalar(8)}
 
